@@ -23,7 +23,9 @@ EXPLANATION = (
     'held in locals (also after a &mut use) to their lock; R1 objects only to mutable or interior-mutable statics that code reachable '
     'from the tasks refers to. Counters may also be atomics or a per-worker vector of atomics (Arc<Vec<AtomicUsize>>); such slots must '
     'be addressed through checked accessors (get / iter) in code reachable from the root tasks - a panicking index depends on the pool '
-    'the search runs in.'
+    'the search runs in. An atomic counter outside the search context (a progress total on the move generator that a reporter thread '
+    'polls) is admitted when the code that runs the parallel tasks only writes it: store, or fetch_* whose returned previous value is '
+    'never used; load / swap / compare_exchange there are reported.'
 )
 ASSUMPTIONS = [
     "rayon: collect() of an indexed parallel iterator preserves the order of the underlying slice",
@@ -53,6 +55,58 @@ def init_fields(facts):
     LOCK_FIELDS.update(COUNTERS | {'search_result_cache'})
 PAR_CLOSURES = [SEARCH + '::{closure#0}', 'chess::move_generator::MoveGenerator::count_positions::{closure#0}']
 INTERIOR = re.compile(r'\b(Mutex|RwLock|Atomic\w*|Cell|RefCell|UnsafeCell|OnceCell|OnceLock|LazyLock|mpsc::)\b')
+
+
+ATOMIC_CALL = re.compile(r'^std::sync::atomic::Atomic(\w*|::<\w+>)::(\w+)$')
+
+
+def atomic_readers(facts, roots):
+    """atomic operations in the chess-crate code reachable from `roots` whose result can reach anything: every operation other than `new`,
+    `store`, and a `fetch_*` whose returned previous value is never used.  An atomic that the counting / searching code only writes (a
+    progress total another thread polls) cannot make a result depend on the schedule."""
+    out = []
+    reach = set()
+    for r in roots:
+        reach |= facts.reachable_fns([r] + [c.name for c in facts.closures_of(r)])
+    for rn in sorted(reach):
+        f = facts.fns.get(rn)
+        if f is None or f.crate != 'chess':
+            continue
+        for b_, t in f.calls():
+            m = ATOMIC_CALL.match(facts.callee_name(t) or '')
+            if not m:
+                continue
+            meth = m.group(2)
+            if meth in ('new', 'store'):
+                continue
+            dest = t.get('dest') or {}
+            if meth.startswith('fetch_') and not dest.get('proj'):
+                dl = dest.get('local')
+
+                def mentions(x, top=True):
+                    if isinstance(x, dict):
+                        if x.get('local') == dl and 'proj' in x:
+                            return True
+                        return any(mentions(v, False) for k_, v in x.items() if not (top and k_ == 'dest'))
+                    if isinstance(x, list):
+                        return any(mentions(v, False) for v in x)
+                    return False
+                used = False
+                for b2 in f.blocks:
+                    if b2['cleanup']:
+                        continue
+                    for st in b2['stmts']:
+                        if st['k'] == 'assign' and mentions(st, False):
+                            used = True
+                    t2 = b2['term']
+                    if t2 is t:
+                        used = used or mentions({k_: v for k_, v in t2.items() if k_ != 'dest'}, False)
+                    elif t2['k'] != 'drop' and mentions(t2, False):
+                        used = True
+                if not used:
+                    continue
+            out.append((rn, meth, t.get('span')))
+    return out
 
 
 def upvars(fn):
@@ -95,6 +149,9 @@ def r1_inventory(ctx):
         ctx.ob(rule, name, 'task body is Fn (environment by shared reference)', env.startswith('&') and not env.startswith('&mut'), found=env, expected='&{closure}')
         up = upvars(fn)
         bad = {k: v for k, v in up.items() if not v.startswith('&') or INTERIOR.search(v)}
+        # a captured atomic counter that the task and its caller only write (progress for a reporter thread) carries nothing between tasks
+        if bad and all(v.startswith('&') and INT_LOCK.match(v.lstrip('&')) for v in bad.values()) and not atomic_readers(facts, [fn.closure_of or name]):
+            bad = {}
         ctx.ob(rule, name, 'captures are shared references to plain data (%d captures)' % len(up), not bad and len(up) >= 2, found=up, expected='&T without interior mutability',
                why='state shared between root tasks other than the context would make the result depend on the schedule')
         # per-task owned state: board clone and a fresh generator
@@ -137,6 +194,13 @@ def r1_inventory(ctx):
             for fd in v['fields']:
                 if INTERIOR.search(fd['ty']):
                     others[path + '.' + fd['name']] = fd['ty']
+    if others and all(INT_LOCK.match(ty_) for ty_ in others.values()):
+        parents = [facts.fns[c_].closure_of for c_ in PAR_CLOSURES if c_ in facts.fns and facts.fns[c_].closure_of]
+        readers = atomic_readers(facts, parents)
+        ctx.ob(rule, 'chess::*', 'atomic counters outside the search context are only written by the code that runs the parallel tasks', not readers,
+               found={'fields': others, 'reads': readers[:4]}, expected='store / fetch_* with the previous value unused',
+               why='a shared counter whose value is read back by the counting or searching code makes the result depend on the schedule')
+        others = {}
     ctx.ob(rule, 'chess::*', 'no other type of the crate has interior-mutable fields', not others, found=others, expected={},
            why='a shared generator or board behind a lock would couple the tasks')
     statics = []
